@@ -82,7 +82,7 @@ func (g *Gen) call(fr *Frame, st *State, c *ssa.CallCommon, res ssa.Value) Val {
 		}
 		g.callAnchorsInvoke(fr, st, c, args)
 		var ret Val
-		if con := g.P.contracts[key]; con != nil {
+		if con := g.contractOf(key); con != nil {
 			ret = g.applyContract(fr, st, con, c.Method.Type().(*types.Signature), append([]Val{recv}, args...), true, resT, c.Method.Pkg(), key)
 		} else {
 			ret = g.uncontracted(fr, st, c, args, resT, key)
@@ -127,7 +127,7 @@ func (g *Gen) call(fr *Frame, st *State, c *ssa.CallCommon, res ssa.Value) Val {
 		return Val{T: sx(name, ts...)}
 	}
 	key := funcKey(callee)
-	con := g.P.contracts[key]
+	con := g.contractOf(key)
 	anchorName := callee.Name()
 	if callee.Parent() != nil {
 		anchorName = closureVarName(callee)
@@ -206,6 +206,23 @@ func pureStdFunc(c *ssa.CallCommon) bool {
 	return f.Pkg.Pkg.Path() == "bytes"
 }
 
+// contractOf: the contract of a callee as seen from the function under verification. A contract marked
+// `scope package` is a sequential view that is adequate only for the functions of the package that
+// declares it (e.g. an atomic counter treated as a plain cell): elsewhere the callee has no contract.
+func (g *Gen) contractOf(key string) *FuncContract {
+	con := g.P.contracts[key]
+	if con != nil && con.ScopePkg != "" {
+		cur := ""
+		if g.con != nil {
+			cur = g.con.PkgPath
+		}
+		if cur != con.ScopePkg {
+			return nil
+		}
+	}
+	return con
+}
+
 func cfgHasCycle(fn *ssa.Function) bool {
 	state := map[*ssa.BasicBlock]int{}
 	var visit func(b *ssa.BasicBlock) bool
@@ -252,7 +269,7 @@ func (g *Gen) autoInline(fr *Frame, callee *ssa.Function, c *ssa.CallCommon) boo
 	if g.con == nil || g.con.IsLemma || g.specMode || hasHeapModifies(g.con) {
 		return false
 	}
-	if g.P.contracts[funcKey(callee)] != nil || g.P.isSpec(callee) {
+	if g.contractOf(funcKey(callee)) != nil || g.P.isSpec(callee) {
 		return false
 	}
 	if pkgOf(callee) == nil || !strings.HasPrefix(pkgOf(callee).Path(), modulePath) || purePkgs[calleePkgPath(c)] || !touchesHeap(c) {
@@ -468,6 +485,13 @@ func (g *Gen) applyContract(fr *Frame, st *State, con *FuncContract, sig *types.
 		}
 		g.assume(st, post.evalBool(en.Expr))
 	}
+	// a trusted contract whose ensures clauses speak about locations its modifies clause does not
+	// reach (or reaches elsewhere) is contradictory and silently cuts every path behind the call:
+	// one cover per call of such a contract - "the run continues behind it" - must stay satisfiable
+	if con.Trusted && len(con.Modifies) > 0 && len(con.Ensures) > 0 && g.con != nil && !g.specMode {
+		name := fmt.Sprintf("%s/vacuity/the run continues behind call %s#%d", g.fnName(), shortKey(key), seq)
+		g.obls = append(g.obls, &Obligation{Name: name, Kind: "vacuity", Fn: g.fnName(), Props: g.con.Props, Reach: st.reach, Goal: "false", Expect: "sat"})
+	}
 	switch len(rv) {
 	case 0:
 		return Val{T: "true"}
@@ -515,6 +539,17 @@ func (g *Gen) havocModifies(env *Env, st *State, m string) {
 		stT := pt.Elem().Underlying().(*types.Struct)
 		for i := 0; i < stT.NumFields(); i++ {
 			if stT.Field(i).Name() == n.Name {
+				if base.P != nil && (len(base.P.Path) > 0 || (base.P.Kind != PHeapStruct && base.P.Kind != PHeapArr)) {
+					// the base is an interior pointer (&obj.field of struct type): the field lives inside the
+					// enclosing object's value, so the havoc goes through the pointer - the same location a
+					// read of base.field in an ensures clause designates
+					nv := g.freshConst("mod_"+n.Name, g.sortOf(stT.Field(i).Type()))
+					g.assume(st, g.wf(nv, stT.Field(i).Type()))
+					p2 := *base.P
+					p2.Path = append(append([]PathStep{}, base.P.Path...), PathStep{Field: i, AggT: pt.Elem()})
+					g.store(st, &p2, nv)
+					return
+				}
 				k, s := g.fieldKey(pt.Elem(), i)
 				nv := g.freshConst("mod_"+n.Name, g.sortOf(stT.Field(i).Type()))
 				g.heapSet(st, k, s, sx("store", g.heapGet(st, k, s), base.T, nv))
@@ -1060,11 +1095,11 @@ func (g *Gen) effCall(fr *Frame, c *ssa.CallCommon, eff *Effects, depth int) {
 		return
 	}
 	if c.IsInvoke() {
-		con = g.P.contracts[ifaceKey(c)]
+		con = g.contractOf(ifaceKey(c))
 	} else {
 		callee = g.staticClosure(fr, c.Value)
 		if callee != nil {
-			con = g.P.contracts[funcKey(callee)]
+			con = g.contractOf(funcKey(callee))
 			if g.P.isSpec(callee) {
 				return
 			}
